@@ -83,7 +83,11 @@ RULE = ("random histories (length <= 26) over Array2D / Grid2D / VectorYX2D / Ke
         "in-place kernel normalisation; random reads on the five quantity graphs of Model/C11g.v; random read orders (with sweeps) on "
         "inversions, fits, meshes and on inversions sharing parts; user edits; dataset derivations; seeded simulations under perturbed "
         "RNG states; histories of shared / partially specified / omitted OverSamplingDataset arguments over two or more datasets; util solver "
-        "functions on caller-owned arrays; directed inversions whose positive-only warm start has every parameter passive. A case is non-trivial if it contains at least one read after a derivation or a repeated read; distinct = distinct JSON input.")
+        "functions on caller-owned arrays; directed inversions whose positive-only warm start has every parameter passive; re-masking chains "
+        "(a then b: larger / smaller / disjoint / equal) with trimming / over-sampling / noise scaling on Imaging datasets built with every "
+        "optional constructor argument (noise covariance matrix ...), each dataset vs its history-free twin and vs independent references; "
+        "50 structure queries evaluated three times with the heap dirtied in between, on directed masks whose zoom / extraction window "
+        "leaves the frame. A case is non-trivial if it contains at least one read after a derivation or a repeated read; distinct = distinct JSON input.")
 EXHAUSTIVE = {}
 TRUSTED = ["hand-written heap/effect model coq/Model/C11.v (tied to /repo by this run: observations, changed names vs effect "
            "summaries and final contents are compared inside Coq)",
